@@ -1426,6 +1426,31 @@ def gen_world_link_length_missing(rng):
     return w
 
 
+def gen_world_trailing_empty(rng):
+    """C06 at run level: a torrent whose total length is an exact multiple of the piece length and whose file list ENDS with
+    empty files (they belong to no piece), run together with other torrents: every file of every torrent must still be
+    bound to its own table entry, whatever the info-hash order"""
+    w = World()
+    L = rng.choice([2, 4])
+    a = TFile(L * rng.range(1, 3), [b"a.bin"], gen_content(rng, L * 3)[:L * rng.range(1, 3)])
+    a = TFile(len(a.content), a.path, a.content)
+    empties = [TFile(0, [b"empty%d.txt" % i], b"") for i in range(rng.range(1, 2))]
+    g1 = GT(b"alpha-%d" % rng.below(50), L, [a] + empties, True)
+    c = TFile(rng.range(2, 7), [b"c.bin"], gen_content(rng, 7)); c = TFile(len(c.content[:c.length]), c.path, c.content[:c.length])
+    d = TFile(rng.range(2, 7), [b"d.bin"], gen_content(rng, 7)); d = TFile(len(d.content[:d.length]), d.path, d.content[:d.length])
+    g2 = GT(b"beta-%d" % rng.below(50), L, [c, d], True)
+    w.gts = [g1, g2]; w.docs = [g1.doc, g2.doc]
+    w.dirs.add(w.export)
+    w.scan = [(b"scan0",)]
+    for g in w.gts:
+        for f in g.files:
+            if f.length:
+                w.add_file((b"scan0", g.name, f.path[-1]), f.content)
+    w.add_file((b"bystander", b"note.txt"), b"do not touch")
+    w.tag = "trailing empty files, several torrents"
+    return w
+
+
 def gen_world_misfiled(rng):
     """C01: export images that hold ANOTHER torrent file's (correct) bytes — a mis-filed download. The matcher may
     legitimately use such an image as the source of the other file's segment; what is written must still be the
